@@ -1,8 +1,11 @@
 import TFV.Properties.EA
 import TFV.Properties.Src.Engine
+import TFV.Properties.Src.Greedy
 #print axioms TFV.EA.C02_best_monotone
 #print axioms TFV.EA.C02_elite_present
 #print axioms TFV.EA.C02_slot_consistent
 #print axioms TFV.EA.C02_slot_monotone
 #print axioms TFV.EA.C02_record_dominates
 #print axioms TFV.SrcTie.C02_src_update_monotone
+#print axioms TFV.SrcTie.C02_src_de_greedy
+#print axioms TFV.SrcTie.C02_src_de_greedy_slot
